@@ -60,21 +60,12 @@ def register_c14(reg):
         q = p.fork(); return [(q, ex.new_symlist(q, 'tokens'))]
     c.apply = tokens_apply
     reg.add(c)
+    def hex_post(S, a, r):
+        if isinstance(r, VStr): return S.true           # string=True: the CSS rgb() spelling (not used by the parser)
+        return rgb8_ints(S, a, r)
     reg.add(Contract(f'{CV}:hex_to_rgb', params={'hex_str': 'str', 'string': 'bool'}, pre=None, result='rgb', pure=True, raises=('ValueError',),
-                     posts={'ints3': lambda S, a, r: S.true if isinstance(r, VTuple) and len(r.xs) == 3 and all(isinstance(x, VInt) for x in r.xs) else (S.true if isinstance(r, VStr) else S.false)},
-                     props={'ints3': ['C14'], 'error_message_nonempty': ['C14']},
-                     note='range 0..255 of int(two hex digits, 16) is a finite-table fact: engine D in check C07 (all 2^24 + 4096 hex strings)'))
-    # callers of hex_to_rgb additionally assume the table fact (discharged by D):
-    hexc = reg.get(f'{CV}:hex_to_rgb')
-    _std_apply = Contract.apply
-    def hex_apply(ex, p, ns, node, ctor=None):
-        outs = _std_apply(hexc, ex, p, ns, node, ctor)
-        res = []
-        for q, r in outs:
-            if isinstance(r, VTuple): q = q.fork(ex.S.rgb8(r))
-            res.append((q, r))
-        return res
-    hexc.apply = hex_apply
+                     posts={'rgb8_ints': hex_post}, props={'rgb8_ints': ['C14', 'C07'], 'error_message_nonempty': ['C14']},
+                     note='uses the finite-table lemma: int(two hex digits, 16) is in 0..255 and does not raise (engine D, all 22^2 digit pairs, checks C07/C14)'))
 
     # ---- conversions with alpha / hsl
     reg.add(Contract(f'{CV}:rgba_to_rgb', params={'rgba': lambda S, p, ex: container(S, p, ex, 'rgba', (3, 4, 5), with_str=True), 'background': lambda S, p, ex: container(S, p, ex, 'rbg', (2, 3), with_str=False)},
